@@ -15,6 +15,7 @@ typedef int64_t duration_t;
 struct vf_ghost {
   /* duration_cast<seconds>(d): the split d = dc_q * 10^7 + dc_r the cast produced (trusted truncating division) */
   unsigned dc_calls; duration_t dc_d; int64_t dc_q, dc_r;
+  int64_t dc_m, dc_rn;   /* dc_m names the product dc_q * 10^7 (whole seconds in ticks), dc_rn the remainder dc_r in nanoseconds */
   /* operator-(a, b): decomposition of the value difference supplied by the caller of the contract:
    * a - b = sub_ds seconds + sub_t ticks + sub_rem ns, |sub_rem| < 100 (sub-grain part, truncated toward zero) */
   int64_t sub_ds, sub_t, sub_rem;
@@ -54,18 +55,37 @@ static const int64_t code_nanoseconds_per_second = /*@EXPR nanoseconds_per_secon
  * decides; it is therefore represented by its defining property ([expr.mul]/4: the quotient truncated toward
  * zero, (a/b)*b + a%b == a) -- DC_AXIOM -- and cross-checked against CBMC's own `/` for |d| < 2^32 ticks
  * in lemma_div_axiom. */
-#define DC_AXIOM(d, q, r) ((r) > -TPS && (r) < TPS && ((d) >= 0 ? (r) >= 0 : (r) <= 0) \
-                           && (q) >= -DC_Q_MAX && (q) <= DC_Q_MAX && (d) == (q) * TPS + (r))
+#define DC_AXIOM(d, q, r) ((d) >= -D_MAX && (d) <= D_MAX && (q) >= -DC_Q_MAX && (q) <= DC_Q_MAX && (r) == (d) - (q) * TPS \
+                           && (r) > -TPS && (r) < TPS && ((d) >= 0 ? (r) >= 0 : (r) <= 0))
+/* what the contracts below say about the recorded split: everything except the product itself, which is named by the
+ * ghost dc_m where the cast evaluates it (dc_m == dc_q * 10^7 by construction; not evaluated a second time) */
+#define DC_SPLIT_OF(d) (G.dc_d == (d) && G.dc_q >= -DC_Q_MAX && G.dc_q <= DC_Q_MAX && (d) == G.dc_m + G.dc_r \
+                        && G.dc_r > -TPS && G.dc_r < TPS && ((d) >= 0 ? G.dc_r >= 0 : G.dc_r <= 0) && G.dc_rn == G.dc_r * NPT)
 static int64_t VF_DURATION_CAST_SECONDS(duration_t d) {
   VF_P(d >= -D_MAX && d <= D_MAX, "duration operand within +-2^62 ticks (operand range)");
   if (G.dc_calls > 0 && G.dc_d == d) { G.dc_calls++; return G.dc_q; }   /* the cast is a function of its argument */
-  int64_t q = VF_nondet_i64(), r = VF_nondet_i64();
+  int64_t q = VF_nondet_i64();
+  __CPROVER_assume(q >= -DC_Q_MAX && q <= DC_Q_MAX);
+  int64_t m = q * TPS;
+  int64_t r = d - m;
   __CPROVER_assume(DC_AXIOM(d, q, r));
-  G.dc_calls++; G.dc_d = d; G.dc_q = q; G.dc_r = r;
+  G.dc_calls++; G.dc_d = d; G.dc_q = q; G.dc_m = m; G.dc_r = r; G.dc_rn = 0;
   return q;
 }
-#define VF_DURATION_MINUS_SECONDS(d, s) ((duration_t)((d) - (s) * TPS))
-#define VF_DURATION_CAST_NANOSECONDS(t) ((int64_t)((t) * NPT))
+/* The next two are plain integer expressions.  d - seconds(q) for the recorded split was evaluated when the split was
+ * made (dc_r is defined as d - q * 10^7): the value is reused instead of being evaluated a second time (memoised; the
+ * solver then meets one copy of the multiplier).  The nanosecond cast carries a CUT (an obligation, then the same fact
+ * as an assumption): a remainder below one second is below 10^9 ns. */
+static duration_t VF_DURATION_MINUS_SECONDS(duration_t d, int64_t s) {
+  if (G.dc_calls > 0 && d == G.dc_d && s == G.dc_q) return G.dc_r;   /* == d - G.dc_m, evaluated in the cast */
+  return d - s * TPS;
+}
+static int64_t VF_DURATION_CAST_NANOSECONDS(duration_t t) {
+  int64_t n = t * NPT;
+  if (t > -TPS && t < TPS) { VF_A(n > -NPS && n < NPS && (t >= 0 ? n >= 0 : n <= 0), "cut: fewer than 10^7 ticks are fewer than 10^9 ns, same sign"); __CPROVER_assume(n > -NPS && n < NPS && (t >= 0 ? n >= 0 : n <= 0)); }
+  if (G.dc_calls > 0 && t == G.dc_r) G.dc_rn = n;
+  return n;
+}
 #define VF_DURATION(x) ((duration_t)(x))
 
 /* ================= functions under contract ================= */
@@ -130,40 +150,40 @@ __CPROVER_ensures(__CPROVER_return_value == self->nanoseconds_)
 /* tp += d / tp -= d: the value moves by exactly d.  With the cast's split d = q * 10^7 + r (q seconds and r
  * ticks, |r| < 10^7, no rounding: DC_AXIOM) that is: the result is the canonical pair of
  * (s +- q) seconds and (ns +- r * 100) nanoseconds, i.e. those two sums up to a carry of c whole seconds. */
-#define ADV(self, sign, c) ((self)->seconds_ == __CPROVER_old((self)->seconds_) sign G.dc_q + (c) && (self)->nanoseconds_ == __CPROVER_old((self)->nanoseconds_) sign G.dc_r * NPT - (c) * NPS)
+#define ADV(self, sign, c) ((self)->seconds_ == __CPROVER_old((self)->seconds_) sign G.dc_q + (c) && (self)->nanoseconds_ == __CPROVER_old((self)->nanoseconds_) sign G.dc_rn - (c) * NPS)
 #define PM_REQ(self, d) (CANON(*(self)) && (self)->seconds_ > -S_MAX && (self)->seconds_ < S_MAX && (d) >= -D_MAX && (d) <= D_MAX && G.dc_calls == 0)
 struct time_point* time_point_plus_eq(struct time_point* self, duration_t d)
 __CPROVER_requires(PM_REQ(self, d))
-__CPROVER_assigns(self->seconds_, self->nanoseconds_, G.dc_calls, G.dc_d, G.dc_q, G.dc_r)
+__CPROVER_assigns(self->seconds_, self->nanoseconds_, G.dc_calls, G.dc_d, G.dc_q, G.dc_m, G.dc_r, G.dc_rn)
 __CPROVER_ensures(__CPROVER_return_value == self)
-__CPROVER_ensures(G.dc_calls == 1 && G.dc_d == d && DC_AXIOM(d, G.dc_q, G.dc_r)) /* the operand itself was split, once */
+__CPROVER_ensures(G.dc_calls == 1 && DC_SPLIT_OF(d)) /* the operand itself was split, once */
 __CPROVER_ensures(CANON(*self)) /* the class invariant is kept */
 __CPROVER_ensures(ADV(self, +, -2) || ADV(self, +, -1) || ADV(self, +, 0) || ADV(self, +, 1) || ADV(self, +, 2)) /* advanced by exactly q s + r ticks = d */
 /*@BODY plus_eq*/
 
 struct time_point* time_point_minus_eq(struct time_point* self, duration_t d)
 __CPROVER_requires(PM_REQ(self, d))
-__CPROVER_assigns(self->seconds_, self->nanoseconds_, G.dc_calls, G.dc_d, G.dc_q, G.dc_r)
+__CPROVER_assigns(self->seconds_, self->nanoseconds_, G.dc_calls, G.dc_d, G.dc_q, G.dc_m, G.dc_r, G.dc_rn)
 __CPROVER_ensures(__CPROVER_return_value == self)
-__CPROVER_ensures(G.dc_calls == 1 && G.dc_d == d && DC_AXIOM(d, G.dc_q, G.dc_r))
+__CPROVER_ensures(G.dc_calls == 1 && DC_SPLIT_OF(d))
 __CPROVER_ensures(CANON(*self))
 __CPROVER_ensures(ADV(self, -, -2) || ADV(self, -, -1) || ADV(self, -, 0) || ADV(self, -, 1) || ADV(self, -, 2)) /* moved back by exactly q s + r ticks = d */
 /*@BODY minus_eq*/
 
-#define ADV_V(rv, a, sign, c) ((rv).seconds_ == (a).seconds_ sign G.dc_q + (c) && (rv).nanoseconds_ == (a).nanoseconds_ sign G.dc_r * NPT - (c) * NPS)
+#define ADV_V(rv, a, sign, c) ((rv).seconds_ == (a).seconds_ sign G.dc_q + (c) && (rv).nanoseconds_ == (a).nanoseconds_ sign G.dc_rn - (c) * NPS)
 #define PMV_REQ(a, d) (CANON(a) && (a).seconds_ > -S_MAX && (a).seconds_ < S_MAX && (d) >= -D_MAX && (d) <= D_MAX && G.dc_calls == 0)
 struct time_point time_point_plus_d(struct time_point a, duration_t d)
 __CPROVER_requires(PMV_REQ(a, d))
-__CPROVER_assigns(G.dc_calls, G.dc_d, G.dc_q, G.dc_r)
-__CPROVER_ensures(G.dc_calls == 1 && G.dc_d == d && DC_AXIOM(d, G.dc_q, G.dc_r))
+__CPROVER_assigns(G.dc_calls, G.dc_d, G.dc_q, G.dc_m, G.dc_r, G.dc_rn)
+__CPROVER_ensures(G.dc_calls == 1 && DC_SPLIT_OF(d))
 __CPROVER_ensures(CANON(__CPROVER_return_value))
 __CPROVER_ensures(ADV_V(__CPROVER_return_value, a, +, -2) || ADV_V(__CPROVER_return_value, a, +, -1) || ADV_V(__CPROVER_return_value, a, +, 0) || ADV_V(__CPROVER_return_value, a, +, 1) || ADV_V(__CPROVER_return_value, a, +, 2)) /* a + d: a advanced by exactly d */
 /*@BODY plus_d*/
 
 struct time_point time_point_minus_d(struct time_point a, duration_t d)
 __CPROVER_requires(PMV_REQ(a, d))
-__CPROVER_assigns(G.dc_calls, G.dc_d, G.dc_q, G.dc_r)
-__CPROVER_ensures(G.dc_calls == 1 && G.dc_d == d && DC_AXIOM(d, G.dc_q, G.dc_r))
+__CPROVER_assigns(G.dc_calls, G.dc_d, G.dc_q, G.dc_m, G.dc_r, G.dc_rn)
+__CPROVER_ensures(G.dc_calls == 1 && DC_SPLIT_OF(d))
 __CPROVER_ensures(CANON(__CPROVER_return_value))
 __CPROVER_ensures(ADV_V(__CPROVER_return_value, a, -, -2) || ADV_V(__CPROVER_return_value, a, -, -1) || ADV_V(__CPROVER_return_value, a, -, 0) || ADV_V(__CPROVER_return_value, a, -, 1) || ADV_V(__CPROVER_return_value, a, -, 2)) /* a - d: a moved back by exactly d */
 /*@BODY minus_d*/
@@ -216,7 +236,7 @@ __CPROVER_ensures(__CPROVER_return_value == (TP_LT(b, a) || TP_EQ(a, b)))
 /* ================= harnesses ================= */
 static struct time_point TPA, TPB;
 static struct time_point any_tp(void) { struct time_point t; t.seconds_ = VF_nondet_i64(); t.nanoseconds_ = VF_nondet_i64(); return t; }
-static void h_init(void) { G.dc_calls = 0; G.dc_d = 0; G.dc_q = 0; G.dc_r = 0; G.clock_reads = 0; G.sub_ds = VF_nondet_i64(); G.sub_t = VF_nondet_i64(); G.sub_rem = VF_nondet_i64(); }
+static void h_init(void) { G.dc_calls = 0; G.dc_d = 0; G.dc_q = 0; G.dc_m = 0; G.dc_r = 0; G.dc_rn = 0; G.clock_reads = 0; G.sub_ds = VF_nondet_i64(); G.sub_t = VF_nondet_i64(); G.sub_rem = VF_nondet_i64(); }
 void h_normalize(void) { h_init(); TPA = any_tp(); time_point_normalize(&TPA); VF_CANARY("after normalize");
   if (TPA.seconds_ < 0) { VF_CANARY("normalize can yield a negative time"); } if (TPA.nanoseconds_ > 0) { VF_CANARY("normalize can yield positive nanoseconds"); } }
 void h_from_seconds_and_nanoseconds(void) { h_init(); struct time_point r = time_point_from_seconds_and_nanoseconds(VF_nondet_i64(), VF_nondet_i64()); VF_CANARY("after from_seconds_and_nanoseconds"); }
@@ -260,8 +280,9 @@ void lemma_order(void) {
   VF_P(time_point_ge(a, b) == (ba || e), "lemma: a >= b iff b < a or a == b");
   VF_P((e && bc) ==> ac, "lemma: < respects ==");
 }
-/* on canonical pairs the order of the pairs is the order of the values s*10^9 + ns (value range: |s| < 2^32) */
-#define VAL(t) ((t).seconds_ * NPS + (t).nanoseconds_)
+/* on canonical pairs the order of the pairs is the order of the values s*10^9 + ns.  Stated on the value DIFFERENCE
+ * value(b) - value(a) = (b.s - a.s)*10^9 + (b.ns - a.ns) (one product; |s| < 2^32 so that it fits 64 bits): the
+ * two-product form a.s*10^9 + a.ns < b.s*10^9 + b.ns is not decided by the SAT back ends (see assumptions). */
 #define VAL_S_MAX ((int64_t)1 << 32)
 void lemma_order_value(void) {
   struct time_point a = any_tp(), b = any_tp();
@@ -270,8 +291,7 @@ void lemma_order_value(void) {
   int64_t diff = (b.seconds_ - a.seconds_) * NPS + (b.nanoseconds_ - a.nanoseconds_);   /* value(b) - value(a) */
   VF_P(time_point_lt(a, b) == (diff > 0), "lemma: on canonical pairs a < b iff value(a) < value(b)");
   VF_P(time_point_eq(a, b) == (diff == 0), "lemma: on canonical pairs a == b iff the values are equal (one pair per value)");
-  VF_P(time_point_lt(a, b) == (VAL(a) < VAL(b)), "lemma: a < b iff a.s*10^9 + a.ns < b.s*10^9 + b.ns");
-  VF_P(time_point_eq(a, b) == (VAL(a) == VAL(b)), "lemma: a == b iff a.s*10^9 + a.ns == b.s*10^9 + b.ns");
+  VF_P(time_point_gt(a, b) == (diff < 0) && time_point_le(a, b) == (diff >= 0) && time_point_ge(a, b) == (diff <= 0) && time_point_ne(a, b) == (diff != 0), "lemma: >, <=, >=, != agree with the values as well");
 }
 /* a value has exactly one canonical pair: shifting k whole seconds between the parts of a canonical pair never
  * gives another canonical pair -- so "canonical and value preserved" determines the result of normalize, += and -= */
@@ -298,4 +318,30 @@ void lemma_extremes(void) {
   VF_CANARY("lemma premises satisfiable");
   VF_P(!time_point_lt(time_point_max(), a) && !time_point_lt(a, time_point_min()), "lemma: max() / min() bound every canonical time_point");
   VF_P(CANON(z) && z.seconds_ == 0 && z.nanoseconds_ == 0, "lemma: a default-constructed time_point is the canonical zero");
+}
+
+/* the axiom that stands for duration_cast<seconds>'s division, against CBMC's own `/` (bounded: |d| < 2^32 ticks) */
+void lemma_div_axiom(void) {
+  duration_t d = VF_nondet_i64();
+  __CPROVER_assume(d > -((int64_t)1 << 32) && d < ((int64_t)1 << 32));
+  int64_t q = d / 10000000;   /* static_cast<CR>(d.count()) / static_cast<CR>(CF::den), [time.duration.cast] */
+  int64_t r = d - q * TPS;
+  VF_CANARY("lemma premises satisfiable");
+  VF_P(DC_AXIOM(d, q, r), "lemma (|d| < 2^32): the truncating quotient d / 10^7 and its remainder satisfy DC_AXIOM");
+  int64_t q2 = VF_nondet_i64();
+  __CPROVER_assume(q2 >= -DC_Q_MAX && q2 <= DC_Q_MAX);
+  int64_t r2 = d - q2 * TPS;
+  __CPROVER_assume(DC_AXIOM(d, q2, r2));
+  VF_P(q2 == q && r2 == r, "lemma (|d| < 2^32): DC_AXIOM has no other solution than the truncating quotient");
+}
+/* a + d - d == a and a - d + d == a, on the extracted operators (normalize inlined) */
+void lemma_add_sub_roundtrip(void) {
+  h_init();
+  struct time_point a = any_tp(); duration_t d = VF_nondet_i64();
+  __CPROVER_assume(PMV_REQ(a, d));
+  struct time_point t = a;
+  _Bool add_first = VF_nondet_bool();
+  if (add_first) { time_point_plus_eq(&t, d); time_point_minus_eq(&t, d); } else { time_point_minus_eq(&t, d); time_point_plus_eq(&t, d); }
+  VF_CANARY("lemma premises satisfiable");
+  VF_P(TP_EQ(t, a), "lemma: adding a duration and subtracting it again (in either order) returns the same time_point");
 }
